@@ -97,7 +97,7 @@ var scFonts = []string{
 	"ot:common/NotoSansArabic.ttf", "ot:toys/Sbix1.ttf", "ot:toys/CBLC1.ttf", "ot:morx/One.ttf", "ot:morx/Thirtytwo.ttf", "ot:toys/Kern2.ttf",
 	"ot:common/Lmmono-italic.otf", "ot:common/Mada-VF.ttf", "ot:toys/Var1.ttf", "ot:toys/KacstQurn.ttf", "ot:common/Selawik-VF.ttf",
 	"ot:toys/chromacheck-svg.ttf", "ot:bitmap/IBM3161-bitmap.otb", "ot:common/SourceSans-VF.ttf", "ot:toys/Trak.ttf", "ot:toys/Feat.ttf",
-	"ot:common/DejaVuSans.ttf", "ot:common/NotoSansMongolian-Regular.ttf", "synth:svg-gzip.ttf", "synth:gsub-long-context.ttf",
+	"ot:common/DejaVuSans.ttf", "ot:common/NotoSansMongolian-Regular.ttf", "synth:svg-gzip.ttf", "synth:gsub-long-context.ttf", "synth:dangling-refs.ttf",
 	"hb:harfbuzz_reference/text-rendering-tests/fonts/TestCMAPMacTurkish.ttf", // cmap format 0 (a Go map behind Cmap.Iter)
 }
 
